@@ -42,6 +42,10 @@ type Env struct {
 	OldOut []byte // previous content of an existing output
 	OutMode os.FileMode
 	Chdir  string // harness must chdir here before Run (RelRelAbs)
+	// install family
+	FontDir string
+	CertDir string
+	Targets []string // sandbox-relative paths the op publishes
 }
 
 // Op is one catalogue entry.
@@ -57,6 +61,10 @@ type Op struct {
 	Run     func(e *Env) error
 	// OutDirOp: op writes several files below e.OutDir.
 	OutDirOp bool
+	// SetupInstall lays out inputs and pre-existing targets of an install-family op.
+	SetupInstall func(e *Env, rel string) error
+	// NaturalFail: the op is expected to fail without any injected fault (invalid input mid-batch).
+	NaturalFail bool
 	// OutPW: passwords that open the op's result (user, owner).
 	OutPW [2]string
 	Note  string
@@ -153,6 +161,19 @@ func Setup(o *Op, rel string, root string, outMode os.FileMode) (*Env, error) {
 	os.WriteFile(filepath.Join(e.InDir, "bystander.bin"), []byte("bystander in input dir"), 0600)
 	os.WriteFile(filepath.Join(e.OutDir, "bystander.txt"), []byte("bystander in output dir"), 0644)
 
+	if o.Family == "install" {
+		e.FontDir = filepath.Join(root, "fonts")
+		e.CertDir = filepath.Join(root, "certs")
+		e.Dest = ""
+		os.Mkdir(e.FontDir, 0755)
+		os.Mkdir(e.CertDir, 0755)
+		os.WriteFile(filepath.Join(e.FontDir, "notes.txt"), []byte("not a font, must not be touched"), 0644)
+		os.WriteFile(filepath.Join(e.CertDir, "bystander.p7c"), []byte("not a certificate, must not be touched"), 0644)
+		if err := o.SetupInstall(e, rel); err != nil {
+			return nil, fmt.Errorf("setup %s/%s: %w", o.Name, rel, err)
+		}
+		return e, nil
+	}
 	if o.Prepare != nil {
 		if err := o.Prepare(e); err != nil {
 			return nil, fmt.Errorf("prepare %s: %w", o.Name, err)
